@@ -85,6 +85,12 @@ fn main() {
         // crash records appended by the orchestrator
         let cases = pair_cases(&recs);
         let crashes: Vec<&Rec> = recs.iter().filter(|r| r.kind == "crash").collect();
+        for r in recs.iter().filter(|r| r.kind == "harness_died") {
+            rep.harness_error(&format!("driver shard died outside of a case ({}); its remaining cases were not run", r.str_or("how", "?")));
+        }
+        if !recs.iter().any(|r| r.kind == "shard_done") && !recs.is_empty() && recs[0].str("scenario").is_some() && logs.len() > 0 && !args.iter().any(|a| a == "--single") {
+            rep.harness_error("driver shard did not finish");
+        }
         for c in &cases {
             rep.begin_case(c);
             if c.begin.has("noinput") {
